@@ -615,6 +615,22 @@ pub fn run(out: &mut Out, tier: &str, rng: &mut Rng) {
         out.case("loc_matches", &[&a, &b, fa, fb], || loc_matches(&a, &b, ra, rb));
         out.case("loc_cmp", &[&a, &b], || loc_cmp(&a, &b));
     }
+    out.comment("C12: same id, every component of the extensions varied independently (components that order in opposite directions)");
+    {
+        let us = ["", "-u-aaa", "-u-bbb", "-u-aaa-bbb", "-u-ca-gregory", "-u-nu-latn", "-u-aaa-nu-latn", "-u-bbb-ca-gregory", "-u-aaa-ca-gregory-nu-latn", "-u-bbb-ca-buddhist", "-u-ca", "-u-aaa-ca"];
+        let ts = ["", "-t-de", "-t-es", "-t-de-h0-hybrid", "-t-es-d0-fwidth", "-t-h0-hybrid", "-t-m0-names", "-t-de-latn-m0-names", "-t-es-419-h0-hybrid-m0-names"];
+        let xs = ["", "-x-a", "-x-b", "-x-a-b"];
+        let ids = ["en-US", "de", "und-Latn"];
+        let mut grid: Vec<String> = vec![];
+        for u in us.iter() { for t_ in ts.iter() { for x in xs.iter() { grid.push(format!("{}{}{}", t_, u, x)); } } }
+        let n = if thorough { 120_000 } else { 12_000 };
+        for i in 0..n {
+            let id = ids[i % ids.len()];
+            let a = format!("{}{}", id, rng.pick(&grid));
+            let b = format!("{}{}", id, rng.pick(&grid));
+            out.case("loc_cmp", &[a.as_bytes(), b.as_bytes()], || loc_cmp(a.as_bytes(), b.as_bytes()));
+        }
+    }
     out.comment("C11/C12: near pairs (one character apart)");
     let n = if thorough { 60_000 } else { 6_000 };
     for _ in 0..n {
